@@ -293,15 +293,24 @@ func (d *abciDriver) genTx(label string) plannedTx {
 			o.AllowMainAlias = false
 			o.NoEscrowDest = true
 			n := GenDistrCfg(t, o)
-			inner = &distrtypes.MsgUpdateParams{Authority: GovAuthority(), SubDistributors: n.Build().SubDistributors}
 			what = "distributor"
+			if rapid.IntRange(0, 5).Draw(t, label+"_badModule") == 0 {
+				// a payload that names a module account the application does not have (a misspelt collector)
+				n.Subs[0].Primary = DAcc{Type: tModule, Id: "validator_rewards_collector"}
+				what = "distributor_unknown_module_account"
+			}
+			inner = &distrtypes.MsgUpdateParams{Authority: GovAuthority(), SubDistributors: n.Build().SubDistributors}
 			// partial updates of the stored configuration (these handlers edit the stored value in place and
 			// validate afterwards; the drawn share may make the whole configuration invalid, so that the
 			// proposal passes the vote and fails when executed)
 			if cur := app.CfedistributorKeeper.GetParams(ctx).SubDistributors; len(cur) > 0 {
 				sd := cur[rapid.IntRange(0, len(cur)-1).Draw(t, label+"_psd")]
 				share := dec18([]string{"0", "100000000000000000", "500000000000000000", "990000000000000000", "1000000000000000000"}[rapid.IntRange(0, 4).Draw(t, label+"_pshare")])
-				switch rapid.IntRange(0, 2).Draw(t, label+"_partial") {
+				partial := rapid.IntRange(0, 2).Draw(t, label+"_partial")
+				if what == "distributor_unknown_module_account" {
+					partial = 2
+				}
+				switch partial {
 				case 0:
 					inner = &distrtypes.MsgUpdateSubDistributorBurnShareParam{Authority: GovAuthority(), SubDistributorName: sd.Name, BurnShare: share}
 					what = "distributor_burn_share"
